@@ -80,7 +80,8 @@ def analyze_one(fn, timeout):
         z3.Solver.check.zt["t"] = 0.0
         zt = z3.Solver.check.zt
     stats = collections.Counter()
-    opts = AnalysisOptionSet(per_condition_timeout=timeout, analysis_kind=[AnalysisKind.PEP316], report_all=True,
+    opts = AnalysisOptionSet(per_condition_timeout=timeout, per_path_timeout=max(30.0, timeout ** 0.5),
+                             analysis_kind=[AnalysisKind.PEP316], report_all=True,
                              stats=stats, max_uninteresting_iterations=sys.maxsize)
     t0 = time.time()
     status, message = "ERROR", "no checkable found"
@@ -130,7 +131,7 @@ def main():
             mod, reg, c = _load(prop, cond)
             out["canary"] = canary()
             models.TAGS_DONE.clear()
-            r = analyze_one(c.fn, c.timeout)
+            r = analyze_one(c.fn, min(c.timeout, float(os.environ.get("DYNVERIF_TMO", "1e9"))))
             out.update(r)
             out["tags_done"] = sorted(models.TAGS_DONE)
             if r["status"] == "REFUTED":
